@@ -82,9 +82,9 @@ func (gp globPattern) Index(k any) (any, error) {
 		if err != nil {
 			return nil, err
 		}
-		gp.Segments[len(gp.Segments)-1] = glob.Wild{
+		gp.setLastSeg(glob.Wild{
 			Type: lastSeg.Type, MatchHidden: true, Matchers: lastSeg.Matchers,
-		}
+		})
 	case strings.HasPrefix(modifier, "type:"):
 		if gp.TypeCb != nil {
 			return nil, ErrMultipleTypeModifiers
@@ -187,11 +187,22 @@ func (gp *globPattern) addMatcher(matcher func(rune) bool) error {
 	if err != nil {
 		return err
 	}
-	gp.Segments[len(gp.Segments)-1] = glob.Wild{
-		Type: lastSeg.Type, MatchHidden: lastSeg.MatchHidden,
-		Matchers: append(lastSeg.Matchers, matcher),
-	}
+	matchers := make([]func(rune) bool, 0, len(lastSeg.Matchers)+1)
+	matchers = append(append(matchers, lastSeg.Matchers...), matcher)
+	gp.setLastSeg(glob.Wild{
+		Type: lastSeg.Type, MatchHidden: lastSeg.MatchHidden, Matchers: matchers,
+	})
 	return nil
+}
+
+// setLastSeg replaces the last segment. It works on a copy of the segments,
+// since they may be shared with the compiled wildcard literal this pattern
+// was indexed from, which is evaluated again the next time the code runs.
+func (gp *globPattern) setLastSeg(seg glob.Segment) {
+	segs := make([]glob.Segment, len(gp.Segments))
+	copy(segs, gp.Segments)
+	segs[len(segs)-1] = seg
+	gp.Segments = segs
 }
 
 func (gp *globPattern) append(segs ...glob.Segment) {
